@@ -813,6 +813,22 @@ func c13RunCase(c *Ctx, shape c13Shape, regs []*c13Reg, triggers []int, sample b
 			break
 		}
 		trg := c13Triggers[tr]
+		if s.itemSalt%2 == 0 {
+			// every cell is asked to re-read its item first (what a program does after mutating items): registrations
+			// belong to the cell, not to what it last read
+			s.say("Update() on every header and body cell")
+			hs := s.t.Headers()
+			for k := range hs {
+				(&hs[k]).Update()
+			}
+			for _, row := range s.t.AllRows() {
+				cs := row.Cells()
+				for k := range cs {
+					(&cs[k]).Update()
+				}
+			}
+			c.Rec.Count("render_passes_preceded_by_Update_on_every_cell", 1)
+		}
 		s.window("Render", -1, -1, "render pass via "+trg.name, func() {
 			if p, _, _ := Guard(func() { trg.f(s.t) }); p {
 				c.Rec.Count("render_panics_ignored_here(C09)", 1)
